@@ -42,11 +42,14 @@ pub struct Case {
     pub via: u8,
     /// ranks a fraction of a second apart (a burst of writes) instead of seconds apart
     pub fine: bool,
+    /// what the first listed entry is when it is unread: 0 a regular file, 1 a symbolic link (a value handed over as a
+    /// link), 2 a named pipe: anything that is not a directory counts against the capacity and is evicted in its turn
+    pub special: u8,
 }
 
 impl Case {
     pub fn to_json(&self) -> Value {
-        json!({"types": self.types, "capacity": self.capacity, "order": self.order, "strays": self.strays, "via": self.via, "fine": self.fine})
+        json!({"types": self.types, "capacity": self.capacity, "order": self.order, "strays": self.strays, "via": self.via, "fine": self.fine, "special": self.special})
     }
     pub fn from_json(v: &Value) -> Case {
         Case {
@@ -56,6 +59,7 @@ impl Case {
             strays: v["strays"].as_u64().unwrap() as u8,
             via: v["via"].as_u64().unwrap() as u8,
             fine: v["fine"].as_bool().unwrap_or(false),
+            special: v["special"].as_u64().unwrap_or(0) as u8,
         }
     }
 }
@@ -70,6 +74,21 @@ fn materialise(dir: &Path, case: &Case, base: i128) {
     });
     for (i, &t) in case.types.iter().enumerate() {
         let (a, m) = times_for(t, base, case.fine);
+        if i == 0 && case.special != 0 && t % 3 == 0 {
+            let p = dir.join(fname(i));
+            shim::passthrough(|| {
+                if case.special == 1 {
+                    let target = dir.parent().unwrap().join("link-target");
+                    std::fs::write(&target, b"linked value").unwrap();
+                    std::os::unix::fs::symlink(&target, &p).unwrap();
+                } else {
+                    let c = std::ffi::CString::new(p.to_string_lossy().as_bytes()).unwrap();
+                    unsafe { libc::mkfifo(c.as_ptr(), 0o444) };
+                }
+            });
+            world::set_times(&p, a, m);
+            continue;
+        }
         world::plant(&dir.join(fname(i)), format!("content-{}", i).as_bytes(), 0o444, a, m);
     }
     shim::passthrough(|| {
@@ -598,7 +617,7 @@ pub fn run(tier: Tier, shard: Shard, rep: &mut Report) {
         "populations of key-named files with rank in 3 values x read mark in {{atime<mtime, atime==mtime, atime>mtime}}: \
          (a) every rank-sorted sequence of n <= {} files with every order of marks inside equal ranks, listed sorted and \
          reverse-sorted, x capacity 0..=n+1 x stray-subdirectory configurations, through raw_cache::prune (for n <= 4, thorough 6, \
-         also with the three ranks 0.3 s apart inside one second); every 7th \
+         also with the three ranks 0.3 s apart inside one second, and with the first listed entry, when unread, a symbolic link or a named pipe); every 7th \
          case also through plain::Cache::set and sharded::Cache::put with the trigger scripted to fire; for n <= 4 every pass is \
          also interrupted at each of its unlinks (EIO) and followed by a clean pass, the two together judged as one pass; (b) every \
          multiset of {}..={} files x capacity 0..=n+1 x both listing orders through prune. Oracle: classical clock queue \
@@ -631,13 +650,21 @@ pub fn run(tier: Tier, shard: Shard, rep: &mut Report) {
                         continue;
                     }
                     let strays = (no % 7) as u8; // 0..6: cycles through subdir configs incl. .kismet_temp
-                    let case = Case { types: types.clone(), capacity, order, strays, via: 0, fine: false };
+                    let case = Case { types: types.clone(), capacity, order, strays, via: 0, fine: false, special: 0 };
                     record(&case, rep);
                     if n <= fine_n {
                         let mut cf = case.clone();
                         cf.fine = true;
                         record(&cf, rep);
                         rep.count("subsecond_rank_cases", 1);
+                    }
+                    if n >= 1 && n <= fine_n && types[0] % 3 == 0 {
+                        for special in [1u8, 2] {
+                            let mut cs = case.clone();
+                            cs.special = special;
+                            record(&cs, rep);
+                            rep.count("non_regular_entry_cases", 1);
+                        }
                     }
                     if n <= 4 && capacity < n && order == 0 {
                         for k in 0..(n - capacity) {
@@ -673,7 +700,7 @@ pub fn run(tier: Tier, shard: Shard, rep: &mut Report) {
                     if !shard.mine(no) {
                         continue;
                     }
-                    let case = Case { types: types.clone(), capacity, order, strays: (no % 7) as u8, via: 0, fine: false };
+                    let case = Case { types: types.clone(), capacity, order, strays: (no % 7) as u8, via: 0, fine: false, special: 0 };
                     record(&case, rep);
                     if no % 50021 == 0 {
                         rep.sample(case.to_json());
@@ -685,7 +712,7 @@ pub fn run(tier: Tier, shard: Shard, rep: &mut Report) {
     rep.fact("max_n_sequences", json!(seq_n));
     rep.fact("max_n_multisets", json!(multi_n));
     if shard.index == 0 {
-        rep.sample(Case { types: vec![1, 0, 4, 8], capacity: 2, order: 0, strays: 2, via: 0, fine: false }.to_json());
+        rep.sample(Case { types: vec![1, 0, 4, 8], capacity: 2, order: 0, strays: 2, via: 0, fine: false, special: 0 }.to_json());
     }
     let _ = BTreeMap::<u8, u8>::new();
     let _ = PathBuf::new();
